@@ -83,7 +83,10 @@ PLayer ==
                /\ layers' = Append(layers, moving \cup {mk})
           /\ lel' = 1 /\ pc' = "loop"
   /\ UNCHANGED <<ii, HT, inp, cut, res, cacheT>>
-PEndLoop == /\ pc = "loop" /\ dcur = N /\ pc' = "fin" /\ UNCHANGED <<ii, HT, inp, cut, nodes, edges, layers, nextL, lel, res, maxExpanded, cacheT, dcur, rootE>>
+\* _finalize_layers: whatever is left in the pool forms the terminal layer and is given its index as depth
+PEndLoop == /\ pc = "loop" /\ dcur = N /\ pc' = "fin"
+            /\ nodes' = [k \in DOMAIN nodes |-> IF k \in nextL THEN [nodes[k] EXCEPT !.dep = dcur] ELSE nodes[k]]
+            /\ UNCHANGED <<ii, HT, inp, cut, edges, layers, nextL, lel, res, maxExpanded, cacheT, dcur, rootE>>
 PNext == PPick \/ PLayer \/ PEndLoop \/ (Finalize /\ UNCHANGED <<dcur, rootE>>) \/ (pc = "done" /\ UNCHANGED pvars)
 PSpec == PInit /\ [][PNext]_pvars
 \* _drain_cutset after the repair of D5: when the root is in its own cut-set it is replaced by those of its children that are not exact
@@ -101,5 +104,6 @@ PContract == pc = "done" => CompileTags(I, HT, inp, res) = {} /\ CutsetTags(I, H
 \* spec -> impl (see DD!Emit): the outcome with the drained cut-set
 PEmit == pc = "done" => PrintT(<<"OUT", ToJson([ii |-> ii, cut |-> cut, type |-> inp.type, width |-> inp.width, lb |-> inp.best_lb,
                                                root |-> [depth |-> inp.root.depth, x |-> inp.root.st.x, value |-> inp.root.value, path |-> inp.root.path],
-                                               exact |-> res.exact, bv |-> res.bv, bev |-> res.bev, cs |-> {CsKey(c) : c \in DrainedCs}])>>)
+                                               exact |-> res.exact, bv |-> res.bv, bev |-> res.bev, cs |-> {CsKey(c) : c \in DrainedCs},
+                                               cu |-> {CuKey(u) : u \in res.cu}])>>)
 =============================================================================
